@@ -9,8 +9,10 @@ C07 as executable predicates.
         generation, holds exactly one listening descriptor, and — if the old configuration served it too — is still
         the SAME socket (handed over, not closed and rebound); addresses that were dropped are closed;
       * after a failed reload nothing changed: same sockets, same descriptors, same (old) answers;
-      * the request that was in flight when the reload began gets a complete answer from the old generation, and a
-        fresh connection made after the old listener was closed is answered by the new one.
+      * the request that was in flight when the reload began gets a complete answer from the old generation — also
+        when it outlives the graceful period and Restart returns before it completes —, and a fresh connection made
+        after the old listener was closed is answered by the new one;
+      * once Restart has returned casket runs exactly one instance.
 
 (2) `stormLaw` — over the recorded trace of a reload storm under concurrent clients (c07.storm): every request made
     on a fresh connection got a complete answer (no transport error), from a generation that was loaded successfully,
@@ -19,27 +21,6 @@ C07 as executable predicates.
 -/
 namespace Casket.ReloadSpec
 open Casket.Reload
-
-structure HObs where
-  res : String
-  fd1 : Nat
-  fd2 : Nat
-  sk1 : Nat
-  sk2 : Nat
-  p1 : String
-  p2 : String
-  mid : Option String
-  str : Option String
-deriving DecidableEq, Repr
-
-inductive HOp where
-  | reload (c : Cfg)
-  | straddle (c : Cfg)
-deriving DecidableEq, Repr
-
-def HOp.cfg : HOp → Cfg
-  | .reload c => c
-  | .straddle c => c
 
 /-- the configuration loads in this environment -/
 def valid (busy : List Nat) (c : Cfg) : Bool := !c.failSetup && c.addrs.all fun a => !busy.contains a
@@ -74,7 +55,13 @@ def stepLaw (busy : List Nat) (led : HLedger) (op : HOp) (o : HObs) : Option Str
       -- the request in flight is answered completely by the configuration it reached
       if o.str != some (if led.addrs.contains 1 then toString led.gen else "-") then some "request-in-flight-dropped"
       else none
+    | .longflight _ =>
+      if o.mid.isSome then some "shape"
+      else if o.str != some (if led.addrs.contains 1 then toString led.gen else "-") then some "request-in-flight-dropped"
+      else none
   if inflight.isSome then inflight else
+  -- after Restart returned (successfully or not) casket runs exactly one instance
+  if o.ni != 1 then some "instance-list" else
   if valid busy c then
     if o.res != "ok" then some "valid-config-rejected"
     else match addrLaw led c g 1 o.fd1 o.sk1 led.prev.sk1 o.p1 with
@@ -86,7 +73,7 @@ def stepLaw (busy : List Nat) (led : HLedger) (op : HOp) (o : HObs) : Option Str
           match op with
           | .straddle _ =>
             if o.mid != some (if c.addrs.contains 1 then toString g else "-") then some "fresh-connection-not-new" else none
-          | .reload _ => none
+          | _ => none
   else
     if o.res != "err" then some "invalid-config-accepted"
     else if o.fd1 != led.prev.fd1 || o.fd2 != led.prev.fd2 || o.sk1 != led.prev.sk1 || o.sk2 != led.prev.sk2 then
@@ -94,7 +81,7 @@ def stepLaw (busy : List Nat) (led : HLedger) (op : HOp) (o : HObs) : Option Str
     else if o.p1 != led.prev.p1 || o.p2 != led.prev.p2 then some "failed-reload-changed-answers"
     else match op with
       | .straddle _ => if o.mid != some led.prev.p1 then some "failed-reload-changed-answers" else none
-      | .reload _ => none
+      | _ => none
 
 def advance (busy : List Nat) (led : HLedger) (op : HOp) (o : HObs) : HLedger :=
   if valid busy op.cfg && o.res == "ok" then { gen := led.next, addrs := op.cfg.addrs, prev := o, next := led.next + 1 }
@@ -124,6 +111,45 @@ def verdict (busy : List Nat) (c0 : Cfg) (ops : List HOp) (obs : List HObs) : St
     | some e => s!"bad:{e}:op 0"
     | none =>
       match checkFrom busy { gen := 1, addrs := c0.addrs, prev := o0, next := 2 } ops rest with
+      | none => "ok"
+      | some e => e
+
+/-! ### servers of several kinds (c07.mixed) -/
+
+/-- what socket `x` must look like when generation `g` with configuration `c` is in force -/
+def expectedCell (c : Cfg) (g x : Nat) : Nat × String :=
+  if c.addrs.contains x then (1, toString g) else (0, "-")
+
+/-- the law of one reload of the mixed stream: a configuration valid for the environment loads and afterwards every socket it
+names has exactly one descriptor and is answered by the new generation's server FOR THAT ADDRESS (an answer from a server of
+another address is rendered `misrouted…` by the driver and never equals the expected answer), every other socket is closed;
+an invalid one fails and changes nothing -/
+def mixedStepLaw (busy codes : List Nat) (prev : List (Nat × String)) (c : Cfg) (g : Nat) (o : MObs) : Option String :=
+  if o.mis then some "misrouted"
+  else if valid busy c then
+    if o.res != "ok" then some "valid-config-rejected"
+    else if o.cells != codes.map (expectedCell c g) then some "wrong-sockets-or-answers"
+    else none
+  else
+    if o.res != "err" then some "invalid-config-accepted"
+    else if o.cells != prev then some "failed-reload-changed-state"
+    else none
+
+def mixedCheck (busy codes : List Nat) : List (Nat × String) → Nat → List Cfg → List MObs → Option String
+  | _, _, [], [] => none
+  | prev, g, c :: cs, o :: os =>
+    match mixedStepLaw busy codes prev c g o with
+    | some e => some s!"bad:{e}:op {g - 1}"
+    | none => mixedCheck busy codes o.cells (g + 1) cs os
+  | _, _, _, _ => some "bad:length:number of steps differs from the number of operations"
+
+def mixedVerdict (busy codes : List Nat) (c0 : Cfg) (cs : List Cfg) (obs : List MObs) : String :=
+  match obs with
+  | [] => "bad:length:no observation"
+  | o0 :: rest =>
+    if o0.mis then "bad:misrouted:op 0"
+    else if o0.res != "ok" || o0.cells != codes.map (expectedCell c0 1) then "bad:start:op 0"
+    else match mixedCheck busy codes o0.cells 2 cs rest with
       | none => "ok"
       | some e => e
 
